@@ -58,7 +58,7 @@ func runC08(c *Ctx) {
 	// the guard rule assumes the policy in force cannot change while a request runs:
 	// borrow C16's admit and swap rules (reported under C08 as well)
 	saved := c.Only
-	c.Only = map[string]bool{"admit": true, "swap": true, "admit-first": true}
+	c.Only = map[string]bool{"admit": true, "swap": true, "admit-first": true, "no-detached-work": true}
 	runC16As(c, P)
 	c.Only = saved
 
